@@ -863,6 +863,32 @@ impl<T: Payload> Ctx<T> {
                 }
                 Out::r(Res::Ok)
             }
+            Op::StreamIsTerm(slot) => match &self.futs[slot as usize] {
+                FutI::Stream(f) => Out::r(Res::Bool(futures_core::FusedStream::is_terminated(&**f))),
+                _ => panic!("StreamIsTerm on a slot without stream"),
+            },
+            Op::DropHandleUnwinding(side) => {
+                let inv = stamp();
+                match side {
+                    Side::S => {
+                        let h = self.hs.pop().expect("no sender");
+                        let _ = catch_unwind(AssertUnwindSafe(move || {
+                            let _h = h;
+                            panic!("KMC-EXPECTED-UNWIND");
+                        }));
+                    }
+                    Side::R => {
+                        let h = self.hr.pop().expect("no receiver");
+                        let _ = catch_unwind(AssertUnwindSafe(move || {
+                            let _h = h;
+                            panic!("KMC-EXPECTED-UNWIND");
+                        }));
+                    }
+                }
+                crate::runner::clear_last_panic();
+                hist::push_hdrop(self.t, side, inv, stamp());
+                Out::r(Res::Ok)
+            }
             Op::DropHandle(side) => {
                 let inv = stamp();
                 match side {
